@@ -96,4 +96,188 @@ def decodeLine (sep : Char) (line : Str) : Option (Str × Str) :=
   | [k, v] => some (k, v)
   | _ => none
 
+/-! ### `_to_string` / `_from_list`: flat sequences of numbers
+
+`_to_string(list)` is `'[' + ' '.join(str(x)) + ']'` (round brackets for a tuple); `_from_list(s)` is
+`ast.literal_eval(s.replace(' ', ','))`.  The model covers what these two do on FLAT sequences of numbers: the items are the
+texts of Python numeric literals over the alphabet digits, sign, `.`, `e`/`E`, `_` (the harness draws from that alphabet plus
+blank, comma, brackets and a letter); nested sequences, quoted text, complex/hex literals are outside the stated domain. -/
+
+def joinWith (sep : Char) : List Str → Str
+  | [] => []
+  | [a] => a
+  | a :: b :: t => a ++ sep :: joinWith sep (b :: t)
+
+inductive SeqKind | list | tuple
+  deriving DecidableEq, Repr
+
+/-- `_to_string` of a list / tuple whose items print (`str(x)`) as `items` -/
+def toStringSeq : SeqKind → List Str → Str
+  | .list, items => '[' :: (joinWith ' ' items ++ [']'])
+  | .tuple, items => '(' :: (joinWith ' ' items ++ [')'])
+
+/-- `str.replace(a, b)` for single characters -/
+def replaceC (a b : Char) (s : Str) : Str := s.map fun c => if c == a then b else c
+
+def isNumChar (c : Char) : Bool := isDigitC c || c == '+' || c == '-' || c == '.' || c == 'e' || c == 'E' || c == '_'
+
+/-- Python integer literal (decimal): digits with single underscores, no leading zero unless every digit is zero -/
+def isPyInt (s : Str) : Bool := digitsU s && (s.head? != some '0' || s.all fun c => c == '0' || c == '_')
+
+/-- Python float literal: a mantissa with a point and/or an exponent (leading zeros allowed) -/
+def isPyFloat (s : Str) : Bool :=
+  match splitAt1 (fun c => c == 'e' || c == 'E') s with
+  | none => s.contains '.' && isMantissa s
+  | some (m, e) => isMantissa m && digitsU (unsigned e)
+
+inductive NumClass | int | float
+  deriving DecidableEq, Repr
+
+/-- what `ast.literal_eval` makes of one item: an optionally signed (one sign) integer or float literal, else an error (`none`) -/
+def pyNumClass (s : Str) : Option NumClass :=
+  if !s.all isNumChar then none
+  else
+    let u := unsigned s
+    if isPyInt u then some .int else if isPyFloat u then some .float else none
+
+/-- what comes back: a list, a tuple, or — for `(x)` — the bare item -/
+inductive Seq
+  | list (items : List Str) | tuple (items : List Str) | scalar (item : Str)
+  deriving DecidableEq, Repr
+
+/-- `(opening bracket, text between the brackets)` when the text is bracketed by a matching pair -/
+def unbracket : Str → Option (Char × Str)
+  | o :: rest =>
+    match rest.reverse with
+    | c :: innerRev => if (o == '[' && c == ']') || (o == '(' && c == ')') then some (o, innerRev.reverse) else none
+    | [] => none
+  | [] => none
+
+/-- the value built from the items: a list for square brackets; for round brackets a tuple, except that `(x)` is just `x` -/
+def seqOf (o : Char) (items : List Str) (trailing : Bool) : Seq :=
+  if o == '[' then .list items
+  else match items, trailing with
+    | [t], false => .scalar t
+    | _, _ => .tuple items
+
+/-- `ast.literal_eval` on a bracketed, comma-separated text of numeric literals (one trailing comma allowed, as in Python) -/
+def literalSeq (s : Str) : Option Seq :=
+  match unbracket s with
+  | none => none
+  | some (o, inner) =>
+    if inner.isEmpty then some (seqOf o [] false)
+    else
+      let fs := splitOn ',' inner
+      let trailing := decide (1 < fs.length) && fs.getLast? == some []
+      let items := if trailing then fs.dropLast else fs
+      if items.all fun t => (pyNumClass t).isSome then some (seqOf o items trailing) else none
+
+/-- `_from_list` -/
+def fromList (s : Str) : Option Seq := literalSeq (replaceC ' ' ',' s)
+
+/-! ### material properties: `_material_<key>` (CSV, Excel) / `sample_<key>` (AIF)
+
+writer: `f"{P}{key}"`; reader: `if key.startswith(P): material[key.replace(P, "")] = val` and later `raw_dict.pop(P + key')`.
+`str.replace` removes EVERY occurrence of `P`, not only the leading one. -/
+
+/-- `s.replace(p, "")` for non-empty `p`: leftmost, non-overlapping occurrences removed.  `skip` = characters of the current
+occurrence still to be dropped. -/
+def removeAllAux (p : Str) : Nat → Str → Str
+  | _, [] => []
+  | skip + 1, _ :: t => removeAllAux p skip t
+  | 0, c :: t => if p.isPrefixOf (c :: t) then removeAllAux p (p.length - 1) t else c :: removeAllAux p 0 t
+
+def removeAll (p s : Str) : Str := removeAllAux p 0 s
+
+inductive MatRead
+  | notMaterial            -- an ordinary metadata key
+  | prop (name : Str)      -- becomes the material property `name`
+  | keyError               -- `raw_dict.pop(P + name)` does not find the key: `KeyError`
+  deriving DecidableEq, Repr
+
+def matJoin (p k : Str) : Str := p ++ k
+
+/-- what the reader does with one key of the document -/
+def matRead (p key : Str) : MatRead :=
+  if p.isPrefixOf key then
+    let name := removeAll p key
+    if p ++ name == key then .prop name else .keyError
+  else .notMaterial
+
+/-! ### AIF: custom metadata keys and quoted values
+
+writer: `block.set_pair(f"{P}{key.replace(' ', '_')}", f"'{value}'")`; reader: `val.strip("'")`,
+`if key.startswith(P): raw_dict[key[n:]] = cast_string(val)`. -/
+
+def aifKeyEnc (pre : Str) (k : Str) : Str := pre ++ replaceC ' ' '_' k
+
+def aifKeyDec (pre : Str) (n : Nat) (key : Str) : Option Str := if pre.isPrefixOf key then some (key.drop n) else none
+
+def quote (q : Char) (v : Str) : Str := q :: (v ++ [q])
+
+def stripCharL (q : Char) : Str → Str
+  | c :: t => if c == q then stripCharL q t else c :: t
+  | [] => []
+
+/-- `s.strip(q)` for a single character -/
+def stripChar (q : Char) (s : Str) : Str := (stripCharL q (stripCharL q s).reverse).reverse
+
+/-! ### Excel: end of a table
+
+the reader walks down column 0 (resp. along the heading row) until a cell "ends" the table; xlrd reports an empty cell as `''`. -/
+
+inductive Cell
+  | empty | text (s : Str) | num (isZero : Bool) | bool (b : Bool)
+  deriving DecidableEq, Repr
+
+inductive EndTest
+  | emptyText     -- `if point == '': break`
+  | falsy         -- `if not point: break`
+  deriving DecidableEq, Repr
+
+def xlIsEnd : EndTest → Cell → Bool
+  | _, .empty => true
+  | _, .text s => s.isEmpty
+  | .emptyText, _ => false
+  | .falsy, .num z => z
+  | .falsy, .bool b => !b
+
+/-- number of rows (columns) read -/
+def xlCount (t : EndTest) (cells : List Cell) : Nat := (cells.takeWhile fun c => !xlIsEnd t c).length
+
+/-! ### version gates
+
+CSV / Excel: `if not version or float(version) < float(V): warn`; AIF: `if not version or version.strip("'") != V: warn`. -/
+
+inductive Gate | floatLt | stripNe
+  deriving DecidableEq, Repr
+
+def digitsVal (s : Str) : Nat := s.foldl (fun acc c => acc * 10 + (c.toNat - '0'.toNat)) 0
+
+/-- plain decimal `d+`, `d+.`, `d+.d+`, `.d+` as (numerator, denominator) -/
+def parseDec (s : Str) : Option (Nat × Nat) :=
+  if !(s.all fun c => isDigitC c || c == '.') || !isMantissa s then none
+  else match splitAt1 (· == '.') s with
+    | none => some (digitsVal s, 1)
+    | some (a, b) => some (digitsVal (a ++ b), 10 ^ b.length)
+
+/-- `some true`: the reader warns (version refused); `some false`: accepted; `none`: the comparison itself raises -/
+def gateWarns : Gate → Str → Str → Option Bool
+  | .floatLt, written, required =>
+    if isNone written then some true
+    else match parseDec written, parseDec required with
+      | some a, some b => some (a.1 == 0 || decide (a.1 * b.2 < b.1 * a.2))
+      | _, _ => none
+  | .stripNe, written, required => some (written.isEmpty || stripChar '\'' written != required)
+
+/-! ### converters on the two sides of a model field -/
+
+/-- writer converter / reader converter pairs that undo each other on numbers and flat sequences of numbers
+(`raw`: the text itself; `str`/`_to_string` then `float`; `_to_string` then `_from_list`; `str` then `ast.literal_eval`) -/
+def convCompatible (w r : Str) : Bool :=
+  (w == "raw".toList && r == "raw".toList) ||
+  ((w == "str".toList || w == "_to_string".toList) && r == "float".toList) ||
+  (w == "_to_string".toList && r == "_from_list".toList) ||
+  (w == "str".toList && (r == "literal_eval".toList || r == "cast_string".toList))
+
 end PgVerif.Model.TextCodec
